@@ -74,6 +74,8 @@ def run_on_patch(prop, patch, tier="quick", runs=None, seed=driver.DEFAULT_SEED,
         env = dict(os.environ)
         env.update(PYTHONPATH=scratch, VERIF_REPO=scratch, VERIF_KEEP_PYTHONPATH="1", VERIF_SEED=str(seed),
                    VERIF_REPLAY_DIR=os.path.join(scratch, "replays"))
+        if os.environ.get("VERIF_SENS_FAST"):
+            env["VERIF_NO_SHRINK"] = "1"
         cmd = [driver.PY, "-u", os.path.join(ROOT, "check"), prop, "--tier", tier, "--no-evidence"]
         if runs:
             cmd += ["--runs", str(runs)]
@@ -108,9 +110,12 @@ def sensitivity(seed, rest):
         if a.only and a.only not in name:
             continue
         props = m.get("detect_with") or [m["property"]]
+        if m.get("effective_on_current_tree") is False:
+            print(f"{name}: skipped (harmless on the current tree: {str(m.get('note', ''))[:80]})")
+            continue
         hit = []
         for prop in props:
-            rc, out = run_on_patch(prop, patch, a.tier, seed=seed)
+            rc, out = run_on_patch(prop, patch, a.tier, seed=seed, runs=m.get("runs"), wall=m.get("wall"))
             viol = [ln for ln in out.splitlines() if ln.startswith("VIOLATION")]
             hit.append((prop, rc, len(viol)))
             tail = [ln for ln in out.splitlines() if ln.strip().startswith("class=")][:1]
